@@ -274,6 +274,45 @@ fn stmt_contexts() -> Vec<StmtCtx> {
                 m::marker(2),
             ]
         }),
+        ("for_each-array-underscores", |e| {
+            vec![
+                m::marker(1),
+                P::Closure("for_each", Box::new(P::Arr(vec![m::lit_i(1), m::lit_i(2)])), vec!["_".into(), "_".into()], vec![m::marker(3), e, m::marker(4)]),
+                m::marker(2),
+            ]
+        }),
+        ("for_each-object-underscores", |e| {
+            vec![
+                m::marker(1),
+                P::Closure("for_each", Box::new(P::Obj(vec![("a".into(), m::lit_i(1)), ("b".into(), m::lit_i(2))])), vec!["_".into(), "_".into()], vec![m::marker(3), e, m::marker(4)]),
+                m::marker(2),
+            ]
+        }),
+        ("filter-array-underscores", |e| {
+            vec![
+                m::set(m::var_t("x"), P::Closure("filter", Box::new(P::Arr(vec![m::lit_i(1), m::lit_i(2)])), vec!["_".into(), "_".into()], vec![e, m::lit_b(true)])),
+                m::marker(2),
+            ]
+        }),
+        ("for_each-array-half-underscore", |e| {
+            vec![
+                m::marker(1),
+                P::Closure("for_each", Box::new(P::Arr(vec![m::lit_i(1), m::lit_i(2)])), vec!["_".into(), "v".into()], vec![m::marker(3), e, m::marker(4)]),
+                m::marker(2),
+            ]
+        }),
+        ("map_values-array-underscore", |e| {
+            vec![
+                m::set(m::var_t("x"), P::Closure("map_values", Box::new(P::Arr(vec![m::lit_i(1), m::lit_i(2)])), vec!["_".into()], vec![m::marker(3), e, m::lit_i(5)])),
+                m::marker(2),
+            ]
+        }),
+        ("map_keys-object-underscore", |e| {
+            vec![
+                m::set(m::var_t("x"), P::Closure("map_keys", Box::new(P::Obj(vec![("a".into(), m::lit_i(1))])), vec!["_".into()], vec![e, m::lit_s("z")])),
+                m::marker(2),
+            ]
+        }),
         ("map_keys-object", |e| {
             vec![
                 m::set(m::var_t("x"), P::Closure("map_keys", Box::new(P::Obj(vec![("a".into(), m::lit_i(1)), ("b".into(), m::lit_i(2))])), vec!["k".into()], vec![e, m::var("k")])),
@@ -292,7 +331,7 @@ fn context_cases(prop: &str, holes: &[(&'static str, P)], in_closure_holes: &[(&
     let mut out = Vec::new();
     let mut seen: BTreeSet<String> = BTreeSet::new();
     for (sname, s) in &sctx {
-        let closure = sname.contains('-') && (sname.starts_with("for_each") || sname.starts_with("map_") || sname.starts_with("filter"));
+        let closure = sname.contains('-') && !sname.contains("underscore") && (sname.starts_with("for_each") || sname.starts_with("map_") || sname.starts_with("filter"));
         let hs: Vec<&(&'static str, P)> = if closure { holes.iter().chain(in_closure_holes.iter()).collect() } else { holes.iter().collect() };
         for (_hname, h) in hs {
             for (i1, (_n1, e1)) in ectx.iter().enumerate() {
@@ -372,7 +411,7 @@ pub fn run_c06(tier: Tier) -> Report {
         }
     }
     let _ = tier;
-    finish(&mut rep, &cases, &skipped, "all programs S(E1(E2(hole))) over 13 statement contexts × 18×18 expression contexts × return-holes (3 plain + 2 per-iteration inside closures) plus closure iteration-value programs, each on every event of the 10-event alphabet; a case is non-trivial when the real compiler accepts the program and the reference interpreter defines its outcome; distinct = distinct (program, event)");
+    finish(&mut rep, &cases, &skipped, "all programs S(E1(E2(hole))) over 19 statement contexts × 18×18 expression contexts × return-holes (3 plain + 2 per-iteration inside closures) plus closure iteration-value programs, each on every event of the 10-event alphabet; a case is non-trivial when the real compiler accepts the program and the reference interpreter defines its outcome; distinct = distinct (program, event)");
     rep
 }
 
@@ -389,7 +428,7 @@ pub fn run_c07(tier: Tier) -> Report {
         vec![("if v == 2 { abort \"it\" }; 1", b(vec![m::if_(m::bin("==", m::var("v"), m::lit_i(2)), vec![P::Abort(Some(Box::new(m::lit_s("it"))))]), m::lit_i(1)]))];
     let cases = context_cases("C07", &holes, &closure_holes, true, &mut skipped);
     let _ = tier;
-    finish(&mut rep, &cases, &skipped, "all programs S(E1(E2(hole))) over 13 statement contexts × 18×18 expression contexts × abort-holes (4 plain + 1 per-iteration inside closures), each on every event of the 10-event alphabet; non-trivial = accepted by the real compiler and defined by the reference interpreter; distinct = distinct (program, event)");
+    finish(&mut rep, &cases, &skipped, "all programs S(E1(E2(hole))) over 19 statement contexts × 18×18 expression contexts × abort-holes (4 plain + 1 per-iteration inside closures), each on every event of the 10-event alphabet; non-trivial = accepted by the real compiler and defined by the reference interpreter; distinct = distinct (program, event)");
     rep
 }
 
@@ -598,7 +637,8 @@ pub fn run_c13(tier: Tier) -> Report {
             Some(coll.clone())
         };
         for (bname, body) in &bodies {
-            for pre in [false, true] {
+            for pre_mode in 0..5u8 {
+                let pre = pre_mode > 0;
                 for handling in 0..3 {
                     for fname in ["for_each", "filter", "map_values", "map_keys"] {
                         let params: Vec<String> = match fname {
@@ -624,9 +664,26 @@ pub fn run_c13(tier: Tier) -> Report {
                             None => P::Closure(fname_static(fname), Box::new(m::call_bang(if fname == "map_keys" { "object" } else { "array" }, vec![coll.clone()])), params.clone(), body),
                         };
                         let mut prog = Vec::new();
-                        if pre {
-                            prog.push(m::set(m::var_t("k"), m::lit_s("outer-k")));
-                            prog.push(m::set(m::var_t("v"), m::lit_s("outer-v")));
+                        // outer bindings of the parameter names: distinct from everything the closure binds (1),
+                        // or COINCIDING with a bound key / index / element (2-4)
+                        match pre_mode {
+                            1 => {
+                                prog.push(m::set(m::var_t("k"), m::lit_s("outer-k")));
+                                prog.push(m::set(m::var_t("v"), m::lit_s("outer-v")));
+                            }
+                            2 => {
+                                prog.push(m::set(m::var_t("k"), m::lit_s("a")));
+                                prog.push(m::set(m::var_t("v"), m::lit_i(2)));
+                            }
+                            3 => {
+                                prog.push(m::set(m::var_t("k"), m::lit_i(0)));
+                                prog.push(m::set(m::var_t("v"), m::lit_i(1)));
+                            }
+                            4 => {
+                                prog.push(m::set(m::var_t("k"), m::lit_i(1)));
+                                prog.push(m::set(m::var_t("v"), m::lit_s("b")));
+                            }
+                            _ => {}
                         }
                         let fallible = *bname == "fails-always" || *bname == "fails-on-2";
                         match handling {
